@@ -1873,7 +1873,13 @@ def run_master_case(case, res, workdir):
         i = 0
         while i < len(results):
             k = rng.randint(1, 3)
-            m._result_cb(copy.deepcopy(results[i:i + k]))
+            try:
+                m._result_cb(copy.deepcopy(results[i:i + k]))
+            except Exception as e:
+                return viol('master-result-cb-raised', 'the results %s were '
+                            'dropped: _result_cb raised %r'
+                            % ([(r['uid'], r.get('exit_code', 'missing'))
+                                for r in results[i:i + k]], e))
             i += k
 
         # state updates for tasks the agent executed for this master
